@@ -298,7 +298,9 @@ def check_status(rep):
         known = s in SERVICE_STATUS
         rep.case(("status", s), outcome="status:" + ("known" if known else "fallback"))
         if known:
-            ok = got == ("ok", SERVICE_STATUS[s]) and bool(got[1])
+            # the text of the table, and one that says WHICH status it was: its own text or the hex code (a catch-all shared by many codes does not)
+            unique = sum(1 for v in SERVICE_STATUS.values() if v == SERVICE_STATUS[s]) == 1
+            ok = got == ("ok", SERVICE_STATUS[s]) and bool(got[1]) and (unique or f"{s:02x}" in got[1].lower())
         else:
             ok = got[0] == "ok" and isinstance(got[1], str) and got[1] and f"{s:02x}" in got[1].lower()
         if not ok:
@@ -368,7 +370,8 @@ def check_status_in_replies(rep):
                 out = call(wd.d.generic_message, service=0x0E, class_code=0x99, instance=1, attribute=1, **kw)
                 err = out[1].error if out[0] == "ok" else None
                 txt = SERVICE_STATUS.get(st)
-                named = isinstance(err, str) and ((txt is not None and txt in err) or f"{st:02x}" in err.lower())
+                unique = txt is not None and sum(1 for v_ in SERVICE_STATUS.values() if v_ == txt) == 1
+                named = isinstance(err, str) and ((unique and txt in err) or f"{st:02x}" in err.lower())
                 value = sum(w << (16 * i) for i, w in enumerate(ext))
                 ext_txt = EXTEND_CODES.get(st, {}).get(value) if ext else None
                 ok = out[0] == "ok" and not bool(out[1]) and named and (ext_txt is None or ext_txt in err)
